@@ -77,6 +77,28 @@ func (e *Engine) verifyFunction(fc *FuncContract) *FnResult {
 			c.storeGlobal(s, g, Sc{T: False})
 		}
 	}
+	// lemmas: proved in an arbitrary heap, before any precondition is assumed
+	for i, lm := range fc.Lemmas {
+		ls := &State{heap: map[string]Term{}}
+		lenv := &Env{c: c, s: ls, vars: map[string]tv{}, fn: fn}
+		if fn.Pkg != nil {
+			lenv.pkg = fn.Pkg.Pkg
+		}
+		g := lenv.evalBool(lm.Expr)
+		if len(lenv.errs) > 0 {
+			c.reportEvalErrors(lenv, fc, lm.Src)
+			continue
+		}
+		label := lm.Name
+		if label == "" {
+			label = fmt.Sprint(i + 1)
+		}
+		props := lm.Props
+		if len(props) == 0 {
+			props = fc.Props
+		}
+		c.oblige(ls, "ensures", fmt.Sprintf("%s/lemma[%s]", fc.Key, label), g, "", "lemma: "+lm.Src, props)
+	}
 	fr := c.pushFrame(s, fn, args, binds)
 	c.collectWitness(s, fn, args)
 	env := c.fnEnv(s, fn, fr, args)
